@@ -7,6 +7,7 @@ import GtModel.Model.Assign
 import GtModel.Model.Bounded
 import GtModel.Model.Search
 import GtModel.Model.Heap
+import GtModel.Model.BuilderDriver
 import GtModel.Model.DispatchDriver
 import GtModel.Model.Expr
 import GtModel.Model.ExprHost
@@ -25,6 +26,7 @@ def table : List (String × Handler) := [
   ("assign", Assign.assignHandler),
   ("bounded", GtModel.Bounded.boundedHandler),
   ("heap", Heap.heapHandler),
+  ("build", GtModel.Builder.buildHandler),
   ("dispatch", Dispatch.dispatchHandler),
   ("dispatch_all", Dispatch.dispatchAllHandler),
   ("heapsel", Heap.selHandler),
